@@ -525,12 +525,56 @@ def rule_r6(ctx) -> List[R.Inst]:
     return insts
 
 
+def rule_r7(ctx) -> List[R.Inst]:
+    """BpmList.to_timing_map: one tempo change per tempo row, its fields taken from that row"""
+    from ..flow import Flow, SeqV, show, ctor_kwargs
+    M = ctx.M
+    rid = "C10.R7"
+    q = "reamber.base.lists.BpmList.BpmList.to_timing_map"
+    fn = M.fn(q)
+    file = M.mods[fn.mod].rel
+    comps = [n for n in walk_no_nested(fn.node) if isinstance(n, ast.ListComp) and any(
+        isinstance(x, ast.Call) and call_name(x) == "BpmChangeOffset" for x in ast.walk(n.elt))]
+    if len(comps) != 1:
+        return [R.undec(rid, "to_timing_map", file, fn.node.lineno, "BpmChangeOffset comprehension not found")]
+    lc = comps[0]
+    insts = []
+    F = Flow()
+    for st in fn.node.body:
+        if isinstance(st, ast.Assign):
+            F.assign(st, seq_only=False)
+    v = F.eval(lc)
+    kw = ctor_kwargs(v.elem) if isinstance(v, SeqV) else None
+    order = ["bpm", "metronome", "offset"]
+    got = {}
+    if kw:
+        for i, f in enumerate(order):
+            a = kw.get(f, kw.get(f"#{i}"))
+            got[f] = show(a).replace(" ", "") if a is not None else None
+    want = {f: f"@elem(self.{f})" for f in order}
+    if kw and got == want and not lc.generators[0].ifs:
+        insts.append(R.ok(rid, "to_timing_map:rows", file, lc.lineno, idiom="BpmChangeOffset(bpm, metronome, offset) of every row, no filter"))
+    elif kw and (lc.generators[0].ifs or any(g is not None and "[" in g for g in got.values()) or
+                 any(g is not None and g.startswith("@elem(") and not g.startswith("@elem(self.") for g in got.values())):
+        insts.append(R.viol(rid, "to_timing_map:rows", file, lc.lineno,
+                            f"the timing map is not built from every tempo row as it stands ({got}): a tempo point that repeats the "
+                            f"previous bpm can still change the metronome (or restart the measure), so dropping or re-ordering rows here "
+                            f"changes position <-> ms", construct=f"to_timing_map: {got}"))
+    elif kw and got != want:
+        insts.append(R.viol(rid, "to_timing_map:rows", file, lc.lineno,
+                            f"tempo change fields are fed from other columns: {got}, expected {want}", construct=f"to_timing_map: {got}"))
+    else:
+        insts.append(R.undec(rid, "to_timing_map:rows", file, lc.lineno, "element provenance not resolved"))
+    return insts
+
+
 SPECS = [
     RuleSpec("C10.R1", rule_r1, 5, "A6", "results are returned in query order (permutation algebra); descending sweep for a decrementing cursor"),
     RuleSpec("C10.R2", rule_r2, 2, "A5", "tempo changes are sorted by the integration key before consecutive pairing"),
     RuleSpec("C10.R3", rule_r3, 3, "A7", "Snap order is lexicographic on (measure, beat): truth table over 9 sign patterns"),
     RuleSpec("C10.R4", rule_r4, 10, "A7", "integration shapes: beat/measure length, position difference at the earlier change's tempo, ms->position split"),
     RuleSpec("C10.R5", rule_r5, 3, "A7", "snapping chooses the nearer neighbour of a sorted table"),
+    RuleSpec("C10.R7", rule_r7, 1, "A5", "a list's timing map has one change per tempo row, fields from the same row"),
     RuleSpec("C10.R6", rule_r6, 6, "A3", "snapping and the position/time conversions write no hidden state"),
 ]
 
